@@ -5,7 +5,7 @@
      bfe_bufio.Writer (512-byte buffer between response and chunkWriter): Write / Flush
      bfe_http/header.go          Header.WriteSubset (sorted keys, value sanitising), HasToken
      bfe_http/transfer.go        response side of readTransfer (what the proxy sees of a backend reply)
-   after the /repo fix "response.bodyAllowed is status based (1xx, 204, 304)".
+   after the /repo fix "response.bodyAllowed is status based (1xx, 204, 304), writeHeader never chunks such a response".
    and a strict reference response parser.  Bytes are Z in [0,256).  Definitions only. *)
 From Coq Require Import String Ascii.
 From Coq Require Import List ZArith Bool.
@@ -147,7 +147,7 @@ Variable sniff : bytes -> bytes.
 Variable now : bytes.
 
 (* req_body: (req.ContentLength <> 0, Body is an expectContinueReader, WroteContinue) *)
-Definition write_header (q : rq) (req_body : bool * bool * bool) (status : Z) (h : fields) (clen : Z)
+Definition write_header (allowed : Z -> bool) (q : rq) (req_body : bool * bool * bool) (status : Z) (h : fields) (clen : Z)
            (close0 hdone : bool) (p : bytes) : hdec :=
   let is_head := q_head q in
   let set_cl := hdone && negb (status =? 304) && is_empty (get_first s_cl h) && (negb is_head || negb (is_empty p)) in
@@ -170,7 +170,7 @@ Definition write_header (q : rq) (req_body : bool * bool * bool) (status : Z) (h
   let has_cl := has_cl0 && negb conflict in
   let '(h3, chunking, close4, te_extra) :=
       if is_head || (status =? 304) then (h2, false, close3, [])
-      else if status =? 204 then (del_key s_te h2, false, close3, [])
+      else if (status =? 204) || negb (allowed status) then (del_key s_te h2, false, close3, [])
       else if has_cl then (del_key s_te h2, false, close3, [])
       else if at_least_11 q then (h2, true, close3, s_chunked)
       else (del_key s_te h2, false, true, []) in
@@ -256,7 +256,7 @@ Definition respond_gen (allowed : Z -> bool) (q : rq) (req_body : bool * bool * 
   let ws := flushed ++ (if is_empty pending then [] else [pending]) in
   let hdone := if flush_first then false else match flushed with [] => true | _ => false end in
   let p := if flush_first then [] else match ws with [] => [] | x :: _ => x end in
-  let d := write_header q req_body status h clen false hdone p in
+  let d := write_header allowed q req_body status h clen false hdone p in
   let out := d_head d ++ body_bytes (q_head q) (d_chunking d) ws in
   let short := negb (q_head q) && negb (d_clen d =? -1) && allowed status && negb (d_clen d =? written) in
   (out, d_close d || short || err || werr, d_drain d).
